@@ -1,6 +1,7 @@
 import OrsoVerif.Lemmas.Validate
 import OrsoVerif.Lemmas.Family
 import OrsoVerif.Lemmas.RowClass
+import OrsoVerif.Lemmas.Layout
 /-!
 # C05 — Validation accepts exactly conforming records; append is atomic
 
@@ -759,5 +760,184 @@ theorem cache_keyed_on_names_alone_counterexample :
   refine ⟨by decide, by decide, by decide, ?_⟩
   intro f k r
   simp [RowClass.buildRow]
+
+/-! ## 9. the layout of a stored row follows the schema as it is when the record is appended -/
+
+/-- **The row class follows the schema** (decided on the facts regenerated from dataframe.py, schema.py and row.py):
+`append` compares the fields of the frame's row class with the column names *read at that moment* — not with a helper
+that remembers an earlier answer —, after the record was validated and before the row is built; the class
+`Row.create_class` makes for a schema has one field per column (if it iterates the schema, the iteration yields one name
+per column, not every name once); and the class reads records by key. -/
+theorem layout_sound : Layout.genL.sound = true := by decide
+
+/-- Non-vacuity of part 9: a column is renamed, then the columns are reordered, between the appends to one frame; a second
+frame reads its names in between. -/
+example :
+    let a : Column := ⟨"id", some "INTEGER", false, []⟩
+    let b : Column := ⟨"name", some "VARCHAR", false, []⟩
+    let b' : Column := ⟨"full_name", some "VARCHAR", false, []⟩
+    (Layout.runB Layout.genL ⟨[a, b], [], none⟩
+        [.bind [], .append 0 Kind.dict [("id", some "int"), ("name", some "str")] true, .read 0, .edit (.setCol 1 b'),
+         .append 0 Kind.dict [("id", some "int"), ("name", some "str")] true,
+         .append 0 Kind.dict [("full_name", some "str"), ("id", some "int")] true, .edit (.replaceCols [b', a]), .bind [], .read 1,
+         .append 0 Kind.dict [("full_name", some "str"), ("id", some "int")] true]).regs
+      = [[[some "int", some "str"], [some "int", some "str"], [some "str", some "int"]], []] := by decide
+
+/-- **One append on a frame bound to a schema that may have been edited since the frame was made** — whatever fields
+the frame's class was left with (`f`), whatever the frame's `column_names` helper remembers (`seen`): the rows and the
+result are those of `appendK` on the columns *as they are now* (so, by `appendK_spec` / `append_spec`: exactly `rowOf` of
+the current columns is added when the record validates against them and can be sized, nothing otherwise), and a frame
+that got past validation is left with a class laid out by the current column names. -/
+theorem bound_append_spec (s : List Column) (seen f : List String) (rows : List Layout.Row) (k : Kind) (r : Record) (z : Bool) :
+    (Layout.appendL Layout.genL s seen f rows k r z).1 = (appendK s rows k r z).1
+    ∧ (Layout.appendL Layout.genL s seen f rows k r z).2.2 = (appendK s rows k r z).2
+    ∧ (Layout.isRejected (Layout.appendL Layout.genL s seen f rows k r z).2.2 = false →
+        (Layout.appendL Layout.genL s seen f rows k r z).2.1 = names s) := by
+  obtain ⟨_, hb, _, hn⟩ := Layout.sound_parts _ layout_sound
+  simp only [Layout.appendL, appendK, Gen.ValidateFlow.appendSteps, Layout.runStepsL, runStepsK, hb, if_true,
+    Layout.relaid_sound _ layout_sound, hn, RowClass.buildRow_names]
+  cases z <;> (repeat' split) <;> simp_all [Layout.isRejected]
+
+theorem bound_append_ok : Layout.AppendOk Layout.genL :=
+  fun s seen f rows k r z => ⟨(bound_append_spec s seen f rows k r z).1, (bound_append_spec s seen f rows k r z).2.1⟩
+
+/-- What `appendK` adds does not depend on the rows already there. -/
+theorem appendK_adds : Layout.KSpec := by
+  intro s rows k r z hk
+  rw [appendK_spec s rows k hk, appendK_spec s [] k hk, append_spec, append_spec]
+  cases guardAccepts k <;> by_cases hv : validate s r = .ok <;> cases z <;> simp [hv]
+
+/-- **Refinement, with the schema changing under the frames**: for every program in which the owner of ONE schema object
+edits it (columns added, inserted, deleted, popped, replaced, renamed / retyped in place), frames are bound to it,
+their `column_names` are read and records (objects of any kind) are appended to any of them, the bound machine — in
+which every frame builds its rows with the class it was left with, replaced as the source replaces it — shows what the
+register machine holds, in which every append stores `rowOf` of the columns as they are at that moment.  No hypothesis on
+the classes the frames start with. -/
+theorem bound_refines_registers (st : Layout.BSt) (ops : List Layout.BOp) :
+    ((Layout.runB Layout.genL st ops).cols, (Layout.runB Layout.genL st ops).regs) = Layout.runBR (st.cols, st.regs) ops :=
+  Layout.run_refinesB Layout.genL bound_append_ok ops st
+
+/-- **A bound frame holds exactly its own history, each record laid out by the columns of its moment**: stop any program
+anywhere; a frame showing `rows` then shows, after the rest, `rows` followed by exactly the rows of the records its appends
+accepted — each with the values in the order of the columns as they were when it was appended (`acceptedRows`). -/
+theorem bound_frame_holds_its_own (st : Layout.BSt) (pre post : List Layout.BOp) (hwf : ∀ op ∈ post, op.wf = true)
+    (j : Nat) (rows : List Layout.Row) (hj : (Layout.runB Layout.genL st pre).regs[j]? = some rows) :
+    (Layout.runB Layout.genL st (pre ++ post)).regs[j]? =
+      some (rows ++ Layout.acceptedRows j (Layout.runB Layout.genL st pre).cols post) := by
+  rw [Layout.runB_append]
+  have h := bound_refines_registers (Layout.runB Layout.genL st pre) post
+  have h2 := congrArg Prod.snd h
+  simp only at h2
+  rw [h2]
+  exact Layout.runBR_frame appendK_adds j post hwf _ _ rows hj
+
+/-- Every row the appends of a program add conforms to the schema as it was when the row was stored: it is `rowOf` of a
+record that validated against those columns. -/
+theorem bound_rows_conform (j : Nat) (ops : List Layout.BOp) (hwf : ∀ op ∈ ops, op.wf = true) :
+    ∀ (s : List Column), ∀ row ∈ Layout.acceptedRows j s ops, ∃ s' r, row = rowOf s' r ∧ rowConforms s' row = true := by
+  induction ops with
+  | nil => intro s row h; simp [Layout.acceptedRows] at h
+  | cons op ops ih =>
+    intro s row h
+    have hop : op.wf = true := hwf op (by simp)
+    have ih := ih (fun o ho => hwf o (by simp [ho]))
+    cases op with
+    | edit o => exact ih _ row (by simpa [Layout.acceptedRows] using h)
+    | bind rs => exact ih _ row (by simpa [Layout.acceptedRows] using h)
+    | read i => exact ih _ row (by simpa [Layout.acceptedRows] using h)
+    | append i k r z =>
+      simp only [Layout.acceptedRows, List.mem_append] at h
+      rcases h with h | h
+      · by_cases hc : i = j ∧ (appendK s [] k r z).2 = .ok
+        · simp only [hc, and_self, if_true, List.mem_singleton] at h
+          subst h
+          obtain ⟨_, hv, _, _⟩ := (appendK_safe s [] k hop r z).1 hc.2
+          rw [validateK_spec] at hv
+          cases hg : guardAccepts k
+          · simp [hg] at hv
+          · simp only [hg, if_true] at hv
+            exact ⟨s, r, rfl, rowOf_conforms s r hv⟩
+        · simp [hc] at h
+      · exact ih _ row h
+
+/-- The statement is *false* of a relayout test against a helper that remembers its first answer (the shape of seeded
+change C05-w6s1), and the machine shows it: after one append the helper has answered; the column is renamed; a record
+that validates against the schema as it is now is laid out by the old names — the renamed column's value is dropped and
+a null stored in a non-nullable column. -/
+theorem relayout_memoised_counterexample :
+    let bad : Layout.LCfg := { Layout.genL with relayout := .memoised }
+    let a : Column := ⟨"id", some "INTEGER", false, []⟩
+    let b : Column := ⟨"name", some "VARCHAR", false, []⟩
+    let b' : Column := ⟨"full_name", some "VARCHAR", false, []⟩
+    let rec2 : Record := [("id", some "int"), ("full_name", some "str")]
+    bad.sound = false
+    ∧ validate [a, b'] rec2 = .ok
+    ∧ (Layout.runB bad ⟨[a, b], [], none⟩
+        [.bind [], .append 0 Kind.dict [("id", some "int"), ("name", some "str")] true, .edit (.setCol 1 b'),
+         .append 0 Kind.dict rec2 true]).regs = [[[some "int", some "str"], [some "int", none]]]
+    ∧ rowOf [a, b'] rec2 = [some "int", some "str"] := by
+  refine ⟨by decide, by decide, by decide, by decide⟩
+
+/-- The statement is *false* of a schema iteration that yields every name once (the shape of seeded change C05-w6s2) when
+`Row.create_class` takes its fields from it: under two columns of one name the stored row is too short and shifted. -/
+theorem iter_distinct_counterexample :
+    let bad : Layout.LCfg := { Layout.genL with iter := .distinct, fieldsFrom := .iteration }
+    let s : List Column := [⟨"id", some "INTEGER", false, []⟩, ⟨"label", some "VARCHAR", true, []⟩,
+                            ⟨"id", some "INTEGER", false, []⟩, ⟨"score", some "DOUBLE", true, []⟩]
+    let r : Record := [("id", some "int"), ("label", some "str"), ("score", some "float")]
+    bad.sound = false
+    ∧ validate s r = .ok
+    ∧ (Layout.runB bad ⟨s, [], none⟩ [.bind [], .append 0 Kind.dict r true]).regs = [[[some "int", some "str", some "float"]]]
+    ∧ rowOf s r = [some "int", some "str", some "int", some "float"] := by
+  refine ⟨by decide, by decide, by decide, by decide⟩
+
+/-! ## 10. the record-size limit of the row serialiser -/
+
+/-- **What the library states is what it does** (on the constant and the guard regenerated from row.py): a packed record
+of at most 16 MiB — the limit the error message states, "Record length cannot exceed 16Mb" — is never refused for its
+size; `Row.nbytes` sizes the row through the guarded serialiser; and if the message states a limit as a literal, every
+length up to it is accepted. -/
+theorem size_limit_as_stated :
+    (∀ n : Nat, n ≤ Layout.statedLimit → Gen.Layout.sizeRefused (n : Int) = false)
+    ∧ (∀ m : Int, Gen.Layout.statedLimit = some m → ∀ n : Int, n ≤ m → Gen.Layout.sizeRefused n = false) := by
+  refine ⟨?_, ?_⟩
+  · intro n hn
+    simp only [Layout.statedLimit] at hn
+    simp [Gen.Layout.sizeRefused, Gen.Layout.maxRecordSize]
+    omega
+  · intro m hm n hn
+    first
+      | (exfalso; simp [Gen.Layout.statedLimit] at hm; done)   -- the message states no literal limit
+      | (simp only [Gen.Layout.statedLimit, Option.some.injEq] at hm
+         simp [Gen.Layout.sizeRefused, Gen.Layout.maxRecordSize]
+         omega)
+
+/-- **A conforming record whose packed values take at most 16 MiB is stored**: for every schema, every frame content,
+every mutable mapping — `append` adds exactly the values in column order. -/
+theorem append_within_limit (s : List Column) (rows : List (List Value)) (k : Kind) (hk : k.wf = true)
+    (hm : k.isMutableMapping = true) (r : Record) (packed : Nat) (hc : Conforms s r) (hp : packed ≤ Layout.statedLimit) :
+    appendK s rows k r (Layout.sizableBy true packed) = (rows ++ [rowOf s r], .ok) := by
+  rw [appendK_mutable s rows k hk hm, append_spec, (validate_ok_iff s r).mpr hc]
+  have h := size_limit_as_stated.1 packed hp
+  simp only [Layout.sizableBy, h, Bool.not_false, Bool.and_self, if_true]
+
+/-- … also on a frame whose schema was edited since it was made. -/
+theorem bound_append_within_limit (s : List Column) (seen f : List String) (rows : List Layout.Row) (k : Kind)
+    (hk : k.wf = true) (hm : k.isMutableMapping = true) (r : Record) (packed : Nat) (hc : Conforms s r)
+    (hp : packed ≤ Layout.statedLimit) :
+    (Layout.appendL Layout.genL s seen f rows k r (Layout.sizableBy true packed)).1 = rows ++ [rowOf s r]
+    ∧ (Layout.appendL Layout.genL s seen f rows k r (Layout.sizableBy true packed)).2.2 = .ok := by
+  obtain ⟨h1, h2, _⟩ := bound_append_spec s seen f rows k r (Layout.sizableBy true packed)
+  rw [h1, h2, append_within_limit s rows k hk hm r packed hc hp]
+  exact ⟨rfl, rfl⟩
+
+/-- Non-vacuity: exactly at the stated limit the row is sized and stored; a row that cannot be packed is refused and nothing
+is stored.  (That a longer record IS refused is not part of the statement: raising the limit is no violation.) -/
+example :
+    Layout.sizableBy true (16 * 1024 * 1024) = true ∧ Layout.sizableBy false 5 = false
+    ∧ appendK [⟨"c0", some "VARCHAR", true, []⟩] [] Kind.dict [("c0", some "str")] (Layout.sizableBy true (16 * 1024 * 1024))
+        = ([[some "str"]], .ok)
+    ∧ appendK [⟨"c0", some "VARCHAR", true, []⟩] [] Kind.dict [("c0", some "str")] (Layout.sizableBy false 5)
+        = ([], .unsizable) := by decide
 
 end C05
